@@ -22,6 +22,9 @@ pub struct Case {
     pub level: X,
     pub vol: X,
     pub flat_len: usize,
+    /// only when level == 0: bit j set => the j-th flat bar (mod 64) is at -0.0 instead of +0.0
+    #[serde(default)]
+    pub neg_zero_mask: u64,
 }
 
 /// how many identical flat bars make the window of this kind degenerate
@@ -62,15 +65,23 @@ pub fn check(c: &Case, ctx: &mut Ctx) -> Result<(), Failure> {
             b.v = 0.0;
             b
         } else {
-            flat
+            let mut f = flat;
+            if c.level.0 == 0.0 && (c.neg_zero_mask >> ((i - c.prefix.len() - c.zv.len()) % 64)) & 1 == 1 {
+                f.o = -0.0;
+                f.h = -0.0;
+                f.l = -0.0;
+                f.c = -0.0;
+            }
+            f
         };
         let out = if scalar { ind.next_scalar(bar.c) } else { ind.next_bar(&bar) };
         let t = i + 1;
         big = big.max(bar.max_abs_price());
         let is_flat = bar.h == bar.l && bar.l == bar.c;
-        let identical = last.map(|l| l.h.to_bits() == bar.h.to_bits() && l.l.to_bits() == bar.l.to_bits() && l.c.to_bits() == bar.c.to_bits()).unwrap_or(false);
+        // numeric equality: +0.0 and -0.0 are the same price
+        let identical = last.map(|l| l.h == bar.h && l.l == bar.l && l.c == bar.c).unwrap_or(false);
         // scalar path: only the close matters
-        let (is_flat, identical) = if scalar { (true, last.map(|l| l.c.to_bits() == bar.c.to_bits()).unwrap_or(false)) } else { (is_flat, identical) };
+        let (is_flat, identical) = if scalar { (true, last.map(|l| l.c == bar.c).unwrap_or(false)) } else { (is_flat, identical) };
         run_equal = if is_flat { if identical { run_equal + 1 } else { 1 } } else { 0 };
         if last.is_some() {
             let no_flow = bar.v == 0.0 || identical;
@@ -160,6 +171,9 @@ pub fn check(c: &Case, ctx: &mut Ctx) -> Result<(), Failure> {
 }
 
 const LEVELS: [f64; 6] = [0.1, 1.0, 85.18, 1e-3, 1e6, 123.456];
+/// extra levels of the random stage: tiny units (normal and subnormal) and, for the indicators whose
+/// formula does not divide by the price itself, the level zero with mixed zero signs
+const XLEVELS: [f64; 5] = [1e-300, 3e-310, 2e-306, 1e15, 0.0];
 
 fn fixed_prefix(class: usize, n: usize) -> Vec<RawBar> {
     let mk = |i: usize, scale: f64| {
@@ -192,7 +206,8 @@ fn strategy(thorough: bool) -> BoxedStrategy<Case> {
                 2 => bar_stream(true, 1, 3 * n + 20).prop_map(|s| s.bars),
             ];
             let zv = prop_oneof![3 => Just(vec![]), 1 => bar_stream(false, 1, 2 * n + 5).prop_map(|s| s.bars)];
-            let level = prop_oneof![6 => (0usize..6).prop_map(|i| LEVELS[i]), 3 => (-3.0f64..6.0).prop_map(|e| 10f64.powf(e))];
+            let zero_ok = !matches!(cfg.kind, Kind::Roc | Kind::Ppo);
+            let level = prop_oneof![12 => (0usize..6).prop_map(|i| LEVELS[i]), 6 => (-3.0f64..6.0).prop_map(|e| 10f64.powf(e)), 3 => (0usize..5).prop_map(move |i| if XLEVELS[i] == 0.0 && !zero_ok { 1e-300 } else { XLEVELS[i] })];
             let flen = prop_oneof![
                 4 => 0usize..=(n + 3),
                 3 => (n + 1)..=(4 * n + 10),
@@ -201,16 +216,32 @@ fn strategy(thorough: bool) -> BoxedStrategy<Case> {
                 1 => Just(1100usize),
             ];
             let vol = prop_oneof![Just(1.0), Just(1000.0), 0.001f64..1e6];
-            (Just(cfg), any::<bool>(), prefix, zv, level, vol, flen)
+            (Just(cfg), any::<bool>(), prefix, zv, level, vol, flen, any::<u64>())
         })
-        .prop_map(|(cfg, scalar, prefix, zv, level, vol, flat_len)| Case { cfg, scalar, prefix, zv, level: X(level), vol: X(vol), flat_len })
+        .prop_map(|(cfg, scalar, mut prefix, mut zv, level, vol, flat_len, neg_zero_mask)| {
+            // an extreme price unit applies to the whole stream: the earlier activity is quoted in the same
+            // unit (a flat stretch 300 orders of magnitude below the prefix would make e.g. the documented
+            // PPO value itself exceed f64::MAX)
+            if level != 0.0 && (level < 1e-200 || level >= 1e15) {
+                let mx = prefix.iter().chain(zv.iter()).map(|b| b.h).fold(1.0f64, f64::max);
+                // monotone map into [level/8, 8*level]: keeps low <= close <= high and stays positive
+                let f = |x: f64| ((x / mx) * (8.0 * level)).max(level / 8.0);
+                for b in prefix.iter_mut().chain(zv.iter_mut()) {
+                    b.o = f(b.o);
+                    b.h = f(b.h);
+                    b.l = f(b.l);
+                    b.c = f(b.c);
+                }
+            }
+            Case { cfg, scalar, prefix, zv, level: X(level), vol: X(vol), flat_len, neg_zero_mask }
+        })
         .boxed()
 }
 
 pub fn run(g: &mut Global) {
     g.rule = "grid (exhaustive over its index space): all 22 indicators x periods 1..=8 x 5 prefix classes (empty, one bar, n bars, 3n+5 bars with a 1e6x spike, descending small prices) x 6 flat levels (0.1, 1, 85.18, 1e-3, 1e6, 123.456) x flat stretch lengths {1..n+3, 700, 1100, 3000} x scalar/bar path; random: proptest (kind, periods with 1..=3 forced often, prefix of valid bars or empty, optional zero-volume stretch with moving prices, flat level, flat length up to 3000 / 8000). Oracle at every step at which the harness's own window is degenerate (last min(t, w) inputs identical flat bars; no flow in the MFI window): all fields finite, documented range, FAST_STOCH = 50, CCI = 0, ROC = 0, TRUE_RANGE = 0 exactly, MAD <= tau*M, SD <= sqrt(tau)*M, Bollinger bands within |m|*sqrt(tau)*M of the average. Non-trivial = non-empty active prefix followed by a flat stretch of >= w+1 bars or a zero-volume stretch; distinct by hash of (kind, parameters, path, prefix, level, length).".into();
     g.assumptions = vec![
-        "flat level and prices are positive (ROC at level 0 is 0/0 by its documented formula)".into(),
+        "flat level and prices are positive; the level zero (with mixed zero signs) is used for every indicator except ROC and PPO, whose documented formulas divide by the price itself".into(),
         "degenerate window lengths: n for FAST_STOCH/CCI/MAD/SD/BB, n+1 for ROC/ER/MFI/RSI and EMA-based indicators, 2 for TRUE_RANGE".into(),
         "range slack 1e-9 as in C07".into(),
     ];
@@ -239,7 +270,25 @@ pub fn run(g: &mut Global) {
             let kind = ALL_KINDS[(r / 8) as usize];
             let nst = n + 6;
             let flat_len = stretch(n, sj % nst);
-            Case { cfg: cfg_small(kind, n), scalar, prefix: fixed_prefix(pc, n), zv: vec![], level: X(level), vol: X(250.0), flat_len }
+            Case { cfg: cfg_small(kind, n), scalar, prefix: fixed_prefix(pc, n), zv: vec![], level: X(level), vol: X(250.0), flat_len, neg_zero_mask: 0 }
+        },
+        &check,
+    );
+    // level zero with every pattern of zero signs over the first 6 flat bars, after a short prefix
+    g.exhaustive(
+        "zero_level_signs",
+        20 * 6 * 3 * 64,
+        &|i| {
+            let mask = i % 64;
+            let r = i / 64;
+            let pc = [1usize, 2, 3][(r % 3) as usize];
+            let r = r / 3;
+            let n = (r % 6) as usize + 1;
+            let kinds: Vec<Kind> = ALL_KINDS.iter().copied().filter(|k| !matches!(k, Kind::Roc | Kind::Ppo)).collect();
+            let kind = kinds[(r / 6) as usize % kinds.len()];
+            // repeat the 6-bit pattern so that longer stretches stay mixed
+            let m6 = mask | (mask << 6) | (mask << 12) | (mask << 18) | (mask << 24) | (mask << 30) | (mask << 36);
+            Case { cfg: cfg_small(kind, n), scalar: i % 2 == 0, prefix: fixed_prefix(pc, n), zv: vec![], level: X(0.0), vol: X(250.0), flat_len: 2 * n + 6, neg_zero_mask: m6 }
         },
         &check,
     );
